@@ -2902,10 +2902,23 @@ void Analyser::AnalyserImpl::analyseModel(const ModelPtr &model)
     //       variable is the one in the component in which it is computed,
     //       something that we only know once our equations have been checked.
 
-    std::map<VariablePtr, VariablePtrs> finalPrimaryExternalVariables;
+    // Note: kept in order of first appearance (rather than sorted by address),
+    //       so that issues are always reported in the same order.
+
+    std::vector<std::pair<VariablePtr, VariablePtrs>> finalPrimaryExternalVariables;
 
     for (const auto &trackedExternalVariable : primaryExternalVariables) {
-        auto &variables = finalPrimaryExternalVariables[Analyser::AnalyserImpl::internalVariable(trackedExternalVariable.first)->mVariable];
+        auto primaryVariable = Analyser::AnalyserImpl::internalVariable(trackedExternalVariable.first)->mVariable;
+        auto finalPrimaryExternalVariable = std::find_if(finalPrimaryExternalVariables.begin(), finalPrimaryExternalVariables.end(),
+                                                         [&](const std::pair<VariablePtr, VariablePtrs> &entry) { return entry.first == primaryVariable; });
+
+        if (finalPrimaryExternalVariable == finalPrimaryExternalVariables.end()) {
+            finalPrimaryExternalVariables.emplace_back(primaryVariable, VariablePtrs {});
+
+            finalPrimaryExternalVariable = std::prev(finalPrimaryExternalVariables.end());
+        }
+
+        auto &variables = finalPrimaryExternalVariable->second;
 
         variables.insert(variables.end(), trackedExternalVariable.second.begin(), trackedExternalVariable.second.end());
     }
